@@ -173,6 +173,9 @@ class CallGraph:
 # --------------------------------------------------------------------------------------
 # helper-aware call sites: a call to a local function that itself performs X counts as a site of X
 
+_CLOSURE_CALLS = ['core::ops::function::Fn::call', 'core::ops::function::FnMut::call_mut', 'core::ops::function::FnOnce::call_once']
+
+
 class Summaries:
     """`sites(fn, patterns, mode)`: blocks of fn whose call is one of `patterns`, or a call to a function of the
     same crates that performs such a call on every path to its return (mode 'must') or on some path (mode 'may').
@@ -207,6 +210,20 @@ class Summaries:
                 out.append(bb)
                 continue
             if depth < 0:
+                continue
+            if call_matches(t, _CLOSURE_CALLS) and t.get('args'):
+                # a call of a closure built in this very body (`write(&mut ser)` in a spliced helper that was handed `|ser| self.inner.view(ser)`):
+                # a call of that closure's body
+                defs = set()
+                for o in origins(fn, t['args'][0]):
+                    if o.kind == 'agg' and o.stmt['rv'].get('ak') == 'closure':
+                        defs.add(o.stmt['rv']['def'])
+                    else:
+                        defs.add(None)
+                if defs and None not in defs:
+                    gs = [g for d_ in defs for g in self.cg.by_path.get(norm(d_), []) if g.path == d_]
+                    if gs and all(self.performs(g, patterns, mode, depth, stack + (fn.path,)) for g in gs):
+                        out.append(bb)
                 continue
             for key in ('resolved', 'callee'):
                 p = t.get(key)
